@@ -36,13 +36,30 @@ func (s aStream) prohibits(cv m.Cav, a m.Acc, class string, nt bool) uint64 {
 }
 
 func (s aStream) validate(set []m.Cav, as []m.Acc, class string, nt bool) uint64 {
-	err := macaroon.NewCaveatSet(m.CavsGo(set)...).Validate(m.AccsGo(as)...)
+	gset := macaroon.NewCaveatSet(m.CavsGo(set)...)
+	reqs := m.AccsGo(as)
+	orig := append([]macaroon.Access{}, reqs...)
+	err := gset.Validate(reqs...)
 	code := m.ErrCode(err)
+	// the caller's request list is his: clearing it again (same slice, as an application that retries or a bundle that asks
+	// each of its tokens would) must give the same answer, and the list must still hold the same requests
+	oracle := ""
+	for k := 2; k <= 3 && oracle == ""; k++ {
+		if c2 := m.ErrCode(gset.Validate(reqs...)); c2 != code {
+			oracle = fmt.Sprintf("clearing the same request list again (use %d) answers code %d instead of %d", k, c2, code)
+		}
+	}
+	for i := range orig {
+		if reqs[i] != orig[i] && oracle == "" {
+			oracle = fmt.Sprintf("Validate replaced request %d of the caller's list", i)
+		}
+	}
 	s.st.Add(&cs.Case{
 		Coq:        coqw.App("KValidate", m.CavsCoq(set), m.AccsCoq(as), coqw.N(code)),
 		Desc:       map[string]any{"op": "Validate", "caveats": m.CavsCoq(set), "accesses": m.AccsCoq(as), "impl_err_code": code, "impl_err": errStr(err), "go": map[string]any{"cavs": set, "accs": as}},
 		Class:      class,
 		Nontrivial: nt,
+		OracleFail: oracle,
 	})
 	return code
 }
@@ -91,8 +108,7 @@ func genC03(c *ctx) {
 				}
 			}
 		}
-		if allOK != (code == 0) {
-			last := s.st.Cases[len(s.st.Cases)-1]
+		if last := s.st.Cases[len(s.st.Cases)-1]; allOK != (code == 0) && last.OracleFail == "" {
 			last.OracleFail = fmt.Sprintf("Validate returned code %d but per-caveat/per-request clearing says cleared=%v", code, allOK)
 		}
 	}
